@@ -169,12 +169,37 @@ func runC12(c *Ctx) {
 			if negated {
 				good = recCalls(is.Body, is.Body.Pos())
 			} else {
-				// `if Q(k) { return }` then record later in the function
-				good = blockAlwaysReturns(is.Body) && recCalls(b.Body, is.End())
+				// `if Q(k) { return }` / `{ continue }` then record later in the function
+				good = blockLeaves(is.Body) && recCalls(b.Body, is.End())
 			}
 			c.check(good, "C12.R1", key, c.pos(call.Pos()), "on the not-yet-rendered side "+rec.fd.Name.Name+"("+argTxt+") records the same key",
 				fmt.Sprintf("%s: the query %s(%s) is not followed, on the not-yet-rendered side, by %s(%s): the body would be emitted again on every use", funcKey(p, b.Decl), q.fd.Name.Name, argTxt, rec.fd.Name.Name, argTxt))
 			// the emission is on the not-rendered side only
+			if !negated && blockLeaves(is.Body) {
+				var emits, before int
+				ast.Inspect(b.Body, func(m ast.Node) bool {
+					if wc, ok := m.(*ast.CallExpr); ok {
+						if se, ok := wc.Fun.(*ast.SelectorExpr); ok && se.Sel.Name == "WriteString" && len(wc.Args) == 1 {
+							txt := types.ExprString(wc.Args[0])
+							if strings.Contains(txt, ".Function") || strings.Contains(txt, ".Class") {
+								emits++
+								// inside the `already rendered` branch, or ahead of the test in the same loop body
+								if is.Body.Pos() <= wc.Pos() && wc.End() <= is.Body.End() {
+									before++
+								}
+								if enc := enclosingLoopBody(b.Body, is); enc != nil && enc.Pos() <= wc.Pos() && wc.End() <= is.Pos() {
+									before++
+								}
+							}
+						}
+					}
+					return true
+				})
+				if emits > 0 {
+					c.check(before == 0, "C12.R1", key+"|emit-guarded", c.pos(is.Pos()), "the body is emitted only after the `already rendered` test let it through",
+						fmt.Sprintf("%s: the script/class body is written before or inside the `already rendered` branch (%d of %d writes)", funcKey(p, b.Decl), before, emits))
+				}
+			}
 			if negated {
 				var emits, outside int
 				ast.Inspect(b.Body, func(m ast.Node) bool {
@@ -354,4 +379,37 @@ func runC12(c *Ctx) {
 	}
 	c.floor("C12.R1", 3)
 	c.floor("C12.R3", 6)
+}
+
+// blockLeaves: the block ends by leaving the enclosing iteration or function (return / continue / break).
+func blockLeaves(b *ast.BlockStmt) bool {
+	if blockAlwaysReturns(b) {
+		return true
+	}
+	if len(b.List) == 0 {
+		return false
+	}
+	if br, ok := b.List[len(b.List)-1].(*ast.BranchStmt); ok && (br.Tok == token.CONTINUE || br.Tok == token.BREAK) {
+		return true
+	}
+	return false
+}
+
+// enclosingLoopBody: the body of the innermost for/range statement that contains n.
+func enclosingLoopBody(root ast.Node, n ast.Node) *ast.BlockStmt {
+	var out *ast.BlockStmt
+	ast.Inspect(root, func(m ast.Node) bool {
+		var body *ast.BlockStmt
+		switch l := m.(type) {
+		case *ast.ForStmt:
+			body = l.Body
+		case *ast.RangeStmt:
+			body = l.Body
+		}
+		if body != nil && body.Pos() <= n.Pos() && n.End() <= body.End() {
+			out = body
+		}
+		return true
+	})
+	return out
 }
